@@ -249,6 +249,12 @@ def make_process(n_pieces, prop):
             if "PY_COLLIDE" in excluded and _collides(src, ctx):
                 from symlite.core import Abort
                 raise Abort()
+            if "PY_COLLIDE_SKIP" in excluded and (_collides(src, ctx) or _shares_text(src, ctx)):
+                from symlite.core import Abort
+                raise Abort()
+            if "PY_COLLIDE_PARTIAL" in excluded and _shares_text(src, ctx):
+                from symlite.core import Abort
+                raise Abort()
             if prop == "C09" and bool(fresh_bool(c, "templater_instance_used_before")):
                 # history: the SAME templater object rendered another file first, whose config context defined more names
                 c.witness("templater_reused")
@@ -264,6 +270,16 @@ def make_process(n_pieces, prop):
             return not check_map(src, tf, control_flow_free=False)
         return harness
     return factory
+
+
+def _shares_text(src, ctx):
+    """known finding PY_COLLIDE_PARTIAL (same root cause as PY_COLLIDE, weaker trigger): a non-empty context value that is
+    actually rendered shares at least one character with some literal text of the template."""
+    import string
+    parsed = list(string.Formatter().parse(src))
+    lits = [lit for lit, *_ in parsed if lit]
+    used = {f for _, f, *_ in parsed if f}
+    return any(v and k in used and any(set(v) & set(lt) for lt in lits) for k, v in ctx.items())
 
 
 def _collides(src, ctx):
@@ -334,6 +350,16 @@ def lex_problems(src, tf):
     if missing:
         problems.append(f"source characters at offsets {missing} ({''.join(src[i] for i in missing)!r}) are covered by no token or placeholder")
     return problems
+
+
+def known_collide_skip(entry):
+    """C07/C09 face of the same defect: the templater gives up on a valid format string (SQLFluffSkipFile)."""
+    src, ctx = entry["replay"]["source"], entry["replay"]["context"]
+    try:
+        tf = run_process(src, ctx)
+    except Exception as e:
+        return f"python templater on {src!r} with {ctx} raises {type(e).__name__}: {str(e)[:90]} (str.format renders {src.format(**ctx)!r})"
+    return None if tf.templated_str == src.format(**ctx) else f"{src!r} renders {tf.templated_str!r}"
 
 
 def known_collide(entry):
